@@ -10,8 +10,14 @@
                           the integer (in units of 10^-c) of the rate group of category [code]
                           matching [key]; 0 / false when there is no such group
      cat_amount t code, cat_surcharge t code (option), has_cat t code
+     ct_PreciseAmount ct, tt_PreciseSum t (Calc/Merge.v)
+                          what CategoryTotal.PreciseAmount() / Total.PreciseSum() answer: the unexported
+                          working-precision figure when it is set (non-zero), the presented one otherwise
+     cat_precise t code   the rational PreciseAmount() of category [code] denotes (0 without the category);
+     cat_precise_field t code   the same for the raw unexported field ct_precise
    The model is purely functional: neither Merge nor Negate can alter an operand, so that clause of the
-   property is checked on the Go side only (tools/props/c20.py). *)
+   property (Merge copies the operand's rows instead of sharing them) is checked on the Go side only
+   (harness/c20.go, tools/props/c20.py). *)
 From Coq Require Import ZArith QArith List Bool.
 From Verif Require Import Base.Wire Num.Amount Num.AmountProofs Calc.Doc Calc.Calc Calc.Merge Calc.MergeProofs.
 Import ListNotations.
@@ -61,6 +67,43 @@ Theorem merge_all_componentwise c ts : Forall (wf_tt c) ts -> forall t, wf_tt c 
 Proof. exact (MergeProofs.merge_all_componentwise c ts). Qed.
 Print Assumptions merge_all_componentwise.
 
+(* ---------- (b') Merge sums the unexported precise figures without loss ---------- *)
+(* only the second operand's category codes need to be distinct; no precision is assumed *)
+Theorem merge_precise_fields t1 t2 : distinct_codes (tt_cats t2) ->
+  let m := tt_merge t1 t2 in
+  (forall code,
+     cat_precise_field m code ==
+     if has_cat t1 code && has_cat t2 code then cat_precise t1 code + cat_precise t2 code
+     else cat_precise_field t1 code + cat_precise_field t2 code) /\
+  toQ (tt_precise m) == toQ (tt_PreciseSum t1) + toQ (tt_PreciseSum t2).
+Proof. exact (MergeProofs.merge_precise_fields t1 t2). Qed.
+Print Assumptions merge_precise_fields.
+
+(* as the accessors see it: the sum of the operands' precise figures, unless that sum is exactly zero *)
+Theorem merge_precise_componentwise t1 t2 : distinct_codes (tt_cats t2) ->
+  let m := tt_merge t1 t2 in
+  (forall code, ~ cat_precise t1 code + cat_precise t2 code == 0 ->
+     cat_precise m code == cat_precise t1 code + cat_precise t2 code) /\
+  (~ toQ (tt_PreciseSum t1) + toQ (tt_PreciseSum t2) == 0 ->
+     toQ (tt_PreciseSum m) == toQ (tt_PreciseSum t1) + toQ (tt_PreciseSum t2)).
+Proof. exact (MergeProofs.merge_precise_componentwise t1 t2). Qed.
+Print Assumptions merge_precise_componentwise.
+
+Example merge_precise_example :
+  distinct_codes (tt_cats ex_loaded) /\
+  cat_precise (tt_merge ex_calc ex_loaded) ex_code == 42001 # 1000 /\
+  toQ (tt_PreciseSum (tt_merge ex_loaded ex_calc)) == 42001 # 1000.
+Proof. exact (conj (proj1 ex_loaded_wf) MergeProofs.merge_precise_example). Qed.
+
+(* the exception is needed: the accessors read "zero" as "unset", so when the precise figures cancel
+   (0.005 + 0.005 - 0.010) they answer the sum of the rounded figures (0.01 + 0.01 - 0.01) *)
+Theorem merge_precise_accessor_cancel_refuted :
+  exists c t1 t2 code, wf_tt c t1 /\ wf_tt c t2 /\
+    ~ cat_precise (tt_merge t1 t2) code == cat_precise t1 code + cat_precise t2 code /\
+    ~ toQ (tt_PreciseSum (tt_merge t1 t2)) == toQ (tt_PreciseSum t1) + toQ (tt_PreciseSum t2).
+Proof. exact MergeProofs.merge_precise_accessor_cancel_refuted. Qed.
+Print Assumptions merge_precise_accessor_cancel_refuted.
+
 (* ---------- (c) operand order affects row order only ---------- *)
 Theorem merge_comm_up_to_order c t1 t2 : wf_tt c t1 -> wf_tt c t2 ->
   let a := tt_merge t1 t2 in
@@ -77,6 +120,12 @@ Theorem merge_comm_up_to_order c t1 t2 : wf_tt c t1 -> wf_tt c t2 ->
   val (tt_sum a) = val (tt_sum b) /\ exp (tt_sum a) = exp (tt_sum b).
 Proof. exact (MergeProofs.merge_comm_up_to_order c t1 t2). Qed.
 Print Assumptions merge_comm_up_to_order.
+
+Theorem merge_precise_comm t1 t2 : distinct_codes (tt_cats t1) -> distinct_codes (tt_cats t2) ->
+  (forall code, cat_precise_field (tt_merge t1 t2) code == cat_precise_field (tt_merge t2 t1) code) /\
+  toQ (tt_precise (tt_merge t1 t2)) == toQ (tt_precise (tt_merge t2 t1)).
+Proof. exact (MergeProofs.merge_precise_comm t1 t2). Qed.
+Print Assumptions merge_precise_comm.
 
 (* ---------- (d) Negate ---------- *)
 (* row by row, in place: tt_negated / ct_negated / rt_negated say every amount field (base, amount,
@@ -139,6 +188,15 @@ Theorem merge_negate_zero_shipped_refuted :
     cat_surcharge (tt_merge_shipped t (tt_negate_shipped t)) code <> Some 0.
 Proof. exact MergeProofs.merge_negate_zero_shipped_refuted. Qed.
 Print Assumptions merge_negate_zero_shipped_refuted.
+
+(* Merge with the unexported figures as shipped (category amount untouched, sums added at the left
+   operand's precision): a recalculated summary (precise 21.001) merged with a loaded one (21.00) *)
+Theorem merge_precise_shipped_refuted :
+  exists c t1 t2 code, wf_tt c t1 /\ wf_tt c t2 /\
+    ~ cat_precise (tt_merge_precise_shipped t1 t2) code == cat_precise t1 code + cat_precise t2 code /\
+    ~ toQ (tt_PreciseSum (tt_merge_precise_shipped t2 t1)) == toQ (tt_PreciseSum t2) + toQ (tt_PreciseSum t1).
+Proof. exact MergeProofs.merge_precise_shipped_refuted. Qed.
+Print Assumptions merge_precise_shipped_refuted.
 
 (* a correctly calculated summary (fixed point of the repaired Calculate) changes under the shipped
    Calculate, and changes again at every further recalculation *)
